@@ -224,7 +224,171 @@ def _add_argument_calls(fi, p=None):
                         names = [a.value for a in m.args if isinstance(a, ast.Constant)]
                         kw = {k.arg: k.value for k in m.keywords}
                         calls.append((owner.get(bind[m.func.value.id], '<global>'), names, kw, n.lineno))
+    # options declared on a parent parser: `common = helper()` (or built in place) and `ArgumentParser(parents=[common])` /
+    # `add_parser(name, parents=[common])` - argparse copies the parent's actions into the child
+    if p is not None:
+        parent_decl = {}        # local name of a parent parser -> [(names, kw, line)]
+        for n in ast.walk(fi.node):
+            if isinstance(n, ast.Assign) and len(n.targets) == 1 and isinstance(n.targets[0], ast.Name) and isinstance(n.value, ast.Call) \
+                    and isinstance(n.value.func, ast.Name):
+                h = fi.module.functions.get(n.value.func.id)
+                if h is None or h is fi:
+                    continue
+                built = {t.id for m in ast.walk(h.node) if isinstance(m, ast.Assign) and isinstance(m.value, ast.Call)
+                         and ast.unparse(m.value.func).endswith('ArgumentParser') for t in m.targets if isinstance(t, ast.Name)}
+                returned = {r.value.id for r in ast.walk(h.node) if isinstance(r, ast.Return) and isinstance(r.value, ast.Name)}
+                decl = []
+                for m in ast.walk(h.node):
+                    if isinstance(m, ast.Call) and isinstance(m.func, ast.Attribute) and m.func.attr == 'add_argument' \
+                            and isinstance(m.func.value, ast.Name) and m.func.value.id in (built & returned):
+                        decl.append(([a.value for a in m.args if isinstance(a, ast.Constant)], {k.arg: k.value for k in m.keywords}, n.lineno))
+                if decl:
+                    parent_decl[n.targets[0].id] = decl
+        # parent parsers built in place: calls recorded above under '<global>' for a variable that is only ever a parent
+        for n in ast.walk(fi.node):
+            if isinstance(n, ast.Call) and isinstance(n.func, (ast.Attribute, ast.Name)):
+                fn_ = ast.unparse(n.func)
+                if not (fn_.endswith('ArgumentParser') or fn_.endswith('.add_parser')):
+                    continue
+                for k in n.keywords:
+                    if k.arg == 'parents' and isinstance(k.value, (ast.List, ast.Tuple)):
+                        own = '<global>' if fn_.endswith('ArgumentParser') else (
+                            n.args[0].value if n.args and isinstance(n.args[0], ast.Constant) else '<global>')
+                        for el in k.value.elts:
+                            if isinstance(el, ast.Name) and el.id in parent_decl:
+                                for names, kw, line in parent_decl[el.id]:
+                                    calls.append((own, names, kw, line))
     return calls, owner
+
+
+def _dest_levels(ob, calls, fpa, only=None):
+    by_dest = {}
+    for own, names, kw, line in calls:
+        by_dest.setdefault(_dest(names), set()).add('<global>' if own == '<global>' else 'sub')
+    for d_, levels in sorted(by_dest.items()):
+        if only is not None and d_ not in only:
+            continue
+        ob.evaluations += 1
+        ob.require(len(levels) == 1, 'option destination %r is declared on the main parser and on a sub-command: a value given '
+                   'before the sub-command is overwritten by the sub-command default (accepted, status 0, wrong wallet)' % d_, fpa.where)
+
+
+def check_onesink(ctx, rule):
+    """Every call in main() that emits wallet data - also one that follows another sink - goes to the channel the user asked
+    for, gets the generated data filtered exactly when --paranoia is on, and no run reaches two of them."""
+    p = ctx.p
+    fmain = p.get_function('__main__.main')
+    with ctx.obligation(rule, '__main__.main', None, fmain.where) as ob:
+        calls = all_sink_calls(p)
+        ob.require(len(calls) >= 2, 'main() calls the stdout sink and the file sink', fmain.where, found=len(calls))
+        fc, pc = T.truth(attr('file')), T.truth(attr('paranoia'))
+        for kind, env, facts in calls:
+            ob.evaluations += 1
+            with_file = [True] if fc in facts else ([False] if T.not_(fc) in facts else [True, False])
+            if kind == 'pprint':
+                ob.require(with_file == [False], 'with --file the wallet data (also) reaches standard output: a pprint call is '
+                           'reachable while args.file is set', fmain.where, found=sorted(T.show(x, maxdepth=3) for x in facts if 'file' in T.show(x)))
+            else:
+                ob.require(with_file == [True], 'without --file a file export is reachable (%s)' % kind, fmain.where)
+            if kind == 'export_to_file':
+                continue
+            data = env.get('data')
+            flags = [True] if pc in facts else ([False] if T.not_(pc) in facts else [True, False])
+            for flag in flags:
+                d = T.assume(data, set(facts) | {pc if flag else T.not_(pc)}) if data is not None and data != T.NONE else None
+                ok = d is not None and (T.is_op(d, 'PARANOIA') and T.is_op(d[2], 'GENERATE') if flag else T.is_op(d, 'GENERATE'))
+                ob.require(ok, 'every emitting call gets the generated data, filtered exactly when --paranoia is on (%s, paranoia %s)'
+                           % (kind, 'on' if flag else 'off'), fmain.where,
+                           found=T.show(d, maxdepth=3) if d is not None else 'no data argument: the sink falls back to a fresh, unfiltered generate()')
+        for i, (k1, _, f1) in enumerate(calls):
+            for k2, _, f2 in calls[i + 1:]:
+                if _consistent(f1, f2):
+                    ob.require(False, 'two emitting calls (%s, %s) are reachable on one run: the wallet is emitted more than once' % (k1, k2),
+                               fmain.where)
+
+
+def check_namespace(ctx, rule):
+    """main() must work on what ONE parse of the complete argument vector produced.  argparse fills every option a parser
+    knows with its default on every parse: a namespace patched together from two parses (a second parse of left-over
+    arguments copied over the first) silently replaces options given in front of the command - `--paranoia` included - by
+    their defaults.  Structural rule on parse_args: the namespace it returns comes from a single parse of its `args`
+    parameter and is not written to afterwards; copying a second parse's attributes over it wholesale is a violation,
+    any other post-processing that is not recognised is UNDECIDED."""
+    p = ctx.p
+    fpa = p.get_function('__main__.parse_args')
+    with ctx.obligation(rule, '__main__.parse_args', None, fpa.where) as ob:
+        ob.evaluations += 1
+        argname = fpa.params[0] if fpa.params else None
+        rets = [n for n in ast.walk(fpa.node) if isinstance(n, ast.Return) and n.value is not None]
+        if not rets:
+            ob.undecided('parse_args has no return statement', fpa.where)
+            return
+        parses = [n for n in ast.walk(fpa.node) if isinstance(n, ast.Call) and isinstance(n.func, ast.Attribute)
+                  and n.func.attr in ('parse_args', 'parse_known_args', 'parse_intermixed_args', 'parse_known_intermixed_args')]
+        full = [c for c in parses if c.args and isinstance(c.args[0], ast.Name) and c.args[0].id == argname]
+        other = [c for c in parses if c not in full]
+        ob.require(len(full) >= 1, 'parse_args parses its argument vector', fpa.where)
+        ob.saw('%d parse call(s) on the full vector, %d on something else' % (len(full), len(other)))
+        # names that hold a namespace: bound from a parse call (directly, or by unpacking parse_known_args)
+        ns_names, second = set(), set()
+        for n in ast.walk(fpa.node):
+            if isinstance(n, ast.Assign) and isinstance(n.value, ast.Call) and n.value in parses:
+                tgt = n.targets[0]
+                nm = tgt.id if isinstance(tgt, ast.Name) else (tgt.elts[0].id if isinstance(tgt, (ast.Tuple, ast.List)) and tgt.elts
+                                                               and isinstance(tgt.elts[0], ast.Name) else None)
+                if nm:
+                    (ns_names if n.value in full else second).add(nm)
+        for r in rets:
+            val = r.value.elts[1] if isinstance(r.value, ast.Tuple) and len(r.value.elts) == 2 else r.value
+            direct = isinstance(val, ast.Call) and val in full and val.func.attr == 'parse_args'
+            named = isinstance(val, ast.Name) and val.id in ns_names
+            if not (direct or named):
+                ob.undecided('the namespace returned by parse_args (%s) is not recognisably the result of one parse of the argument '
+                             'vector' % ast.unparse(val), '%s:%d' % (fpa.module.relpath, r.lineno))
+        # writes to a namespace after parsing
+        for n in ast.walk(fpa.node):
+            w = None
+            if isinstance(n, ast.Call) and isinstance(n.func, ast.Name) and n.func.id == 'setattr' and n.args \
+                    and isinstance(n.args[0], ast.Name) and n.args[0].id in ns_names:
+                w = ('setattr', n)
+            elif isinstance(n, (ast.Assign, ast.AugAssign)):
+                for t in (n.targets if isinstance(n, ast.Assign) else [n.target]):
+                    if isinstance(t, ast.Attribute) and isinstance(t.value, ast.Name) and t.value.id in ns_names:
+                        w = ('store', n)
+            elif isinstance(n, ast.Call) and isinstance(n.func, ast.Attribute) and n.func.attr == 'update' and any(
+                    isinstance(x, ast.Name) and x.id in ns_names for x in ast.walk(n.func.value)):
+                w = ('update', n)
+            if w is None:
+                continue
+            kind, node = w
+            where = '%s:%d' % (fpa.module.relpath, node.lineno)
+            from_second = any(isinstance(x, ast.Name) and x.id in second for x in ast.walk(node))
+            # the enclosing loop may iterate over the second namespace (for k, v in vars(options).items(): setattr(ns, k, v))
+            for lp in ast.walk(fpa.node):
+                if isinstance(lp, ast.For) and any(x is node for x in ast.walk(lp)) \
+                        and any(isinstance(x, ast.Name) and x.id in second for x in ast.walk(lp.iter)):
+                    guarded = any(isinstance(x, ast.If) and any(y is node for y in ast.walk(x)) for x in ast.walk(lp))
+                    from_second = 'guarded' if guarded else 'loop'
+            if from_second == 'loop' or (from_second is True and kind in ('update',)):
+                ob.require(False, 'the namespace of the full parse is overwritten wholesale with the attributes of a second parse: every '
+                           'option the second parser knows - given there or not - replaces the value parsed from the full argument '
+                           'vector, so `--paranoia` (or --file, --testnet, --account, --interval) in front of the command is silently '
+                           'reset to its default', where)
+            else:
+                ob.undecided('parse_args writes to the parsed namespace (%s); whether main() still sees what the user gave is not '
+                             'decided' % ast.unparse(node)[:80], where)
+
+
+def check_secret_options(ctx, rule, dests):
+    """The command line hands the user's secret inputs to the wallet constructors unchanged: none of their destinations is
+    declared on two parser levels (argparse then silently replaces the value given first by the other level's default)."""
+    p = ctx.p
+    fpa = p.get_function('__main__.parse_args')
+    with ctx.obligation(rule, '__main__.parse_args', None, fpa.where) as ob:
+        calls, _ = _add_argument_calls(fpa, p)
+        found = {_dest(names) for _, names, _kw, _l in calls}
+        ob.require(set(dests) <= found, 'the secret-carrying options are declared', fpa.where, expected=sorted(dests), found=sorted(found))
+        _dest_levels(ob, calls, fpa, only=set(dests))
 
 
 def _dest(names):
@@ -333,33 +497,7 @@ def run(ctx):
         # no handler in main swallows errors
         ob.require(not [n for n in ast.walk(fmain.node) if isinstance(n, ast.Try)], 'main() contains no try/except that could swallow '
                    'an error (an exception ends the process with a non-zero status)', fmain.where)
-    with ctx.obligation('C20.ONESINK', '__main__.main', None, fmain.where) as ob:
-        calls = all_sink_calls(p)
-        ob.require(len(calls) >= 2, 'main() calls the stdout sink and the file sink', fmain.where, found=len(calls))
-        fc, pc = T.truth(attr('file')), T.truth(attr('paranoia'))
-        for kind, env, facts in calls:
-            ob.evaluations += 1
-            with_file = [True] if fc in facts else ([False] if T.not_(fc) in facts else [True, False])
-            if kind == 'pprint':
-                ob.require(with_file == [False], 'with --file the wallet data (also) reaches standard output: a pprint call is '
-                           'reachable while args.file is set', fmain.where, found=sorted(T.show(x, maxdepth=3) for x in facts if 'file' in T.show(x)))
-            else:
-                ob.require(with_file == [True], 'without --file a file export is reachable (%s)' % kind, fmain.where)
-            if kind == 'export_to_file':
-                continue
-            data = env.get('data')
-            flags = [True] if pc in facts else ([False] if T.not_(pc) in facts else [True, False])
-            for flag in flags:
-                d = T.assume(data, set(facts) | {pc if flag else T.not_(pc)}) if data is not None and data != T.NONE else None
-                ok = d is not None and (T.is_op(d, 'PARANOIA') and T.is_op(d[2], 'GENERATE') if flag else T.is_op(d, 'GENERATE'))
-                ob.require(ok, 'every emitting call gets the generated data, filtered exactly when --paranoia is on (%s, paranoia %s)'
-                           % (kind, 'on' if flag else 'off'), fmain.where,
-                           found=T.show(d, maxdepth=3) if d is not None else 'no data argument: the sink falls back to a fresh, unfiltered generate()')
-        for i, (k1, _, f1) in enumerate(calls):
-            for k2, _, f2 in calls[i + 1:]:
-                if _consistent(f1, f2):
-                    ob.require(False, 'two emitting calls (%s, %s) are reachable on one run: the wallet is emitted more than once' % (k1, k2),
-                               fmain.where)
+    check_onesink(ctx, 'C20.ONESINK')
     # ---------------------------------------------------------------- parse_args table
     fpa = p.get_function('__main__.parse_args')
     with ctx.obligation('C20.ARGS', '__main__.parse_args', None, fpa.where) as ob:
@@ -385,12 +523,7 @@ def run(ctx):
                            'argument %s of %s: %s must be %r' % (key[1], key[0], k, want), where, expected=want, found=got)
         # argparse copies a sub-parser's namespace (defaults included) over the parent's: a destination declared on
         # both levels silently loses the value given in front of the sub-command
-        by_dest = {}
-        for own, names, kw, line in calls:
-            by_dest.setdefault(_dest(names), set()).add('<global>' if own == '<global>' else 'sub')
-        for d_, levels in sorted(by_dest.items()):
-            ob.require(len(levels) == 1, 'option destination %r is declared on the main parser and on a sub-command: a value given '
-                       'before the sub-command is overwritten by the sub-command default (accepted, status 0, wrong wallet)' % d_, fpa.where)
+        _dest_levels(ob, calls, fpa)
         extra = sorted(set(found) - set(SPEC_ARGS))
         if extra:
             ob.note('arguments beyond the specified table (not judged): %s' % extra)
@@ -406,6 +539,7 @@ def run(ctx):
             if isinstance(n, ast.Attribute) and isinstance(n.value, ast.Name) and n.value.id == 'args':
                 ob.require(n.attr in dests, 'main() reads args.%s which parse_args never sets' % n.attr,
                            '%s:%d' % (fmain.module.relpath, n.lineno))
+    check_namespace(ctx, 'C20.NAMESPACE')
     # ---------------------------------------------------------------- validators
     ev = Evaluator(p, 'ecdsa')
     val = S('value', type='str')
@@ -540,6 +674,15 @@ def run(ctx):
         ob.require(excl or validated, 'an existing file can be overwritten: export_to_file does not create exclusively and --file is '
                    'not validated by file_', etf.where)
     check_sinks(ctx, 'C20.SINKS')
+    # "bad arguments yield no wallet output": the entropy_hex validator counts characters, the refusal of a wrong entropy
+    # *size* (e.g. hex digits separated by blanks, which bytes.fromhex skips) is the library's - C04.SIZE is part of it
+    from . import C04
+    sub4 = ctx.__class__('C20', ctx.tier, ctx.p, ctx.seed)
+    C04.run(sub4)
+    for o in sub4.obligations:
+        if o.rule in ('C04.SIZE', 'C04.PASS'):
+            o.rule = 'C20.%s(=C04)' % o.rule.split('.')[1]
+            ctx.obligations.append(o)
     from .C11 import check_regex_anchors
     check_regex_anchors(ctx, 'C20.REGEX', [p.get_module('__main__')])
     # "filtered when paranoia mode is on": the filtered value must survive the sinks' falsy-data fall-back
